@@ -162,7 +162,7 @@ class _Tables(object):
         lt0, rt0 = lt.copy(deep=True), rt.copy(deep=True)
         set_mode = not a['bag'] if self.kind == 'overlap-join' else True
         tok = WhitespaceTokenizer(return_set=set_mode)
-        louts, routs = ((['lx', 'id', 'v', 'lx'], ['ry']) if a['outs'] else (None, None))
+        louts, routs = ((['lx', 'id', 'v', 'lx'], ['ry', 'rid', 'id', 'ry']) if a['outs'] else (None, None))
         kw = dict(l_key_attr='id', r_key_attr='rid', l_attr='v', r_attr='w')
         tabs = [lt, rt]
         expect = None
@@ -199,6 +199,31 @@ class _Tables(object):
                 keep, with_score = overlap_keep(op, a['size']), a['score']
                 must = keep
                 score = lambda lv, rv: len(set(T(lv)) & set(T(rv)))
+            elif self.kind in ('prefix-filter', 'position-filter'):
+                import py_stringsimjoin as ssj
+                from py_stringsimjoin.filter.filter_utils import get_size_lower_bound as lb_, get_size_upper_bound as ub_
+                M = measure_of(case)
+                cls = ssj.PrefixFilter if self.kind == 'prefix-filter' else ssj.PositionFilter
+                f = cls(tok, M, a['t'], a['allow_empty'], a['allow_missing'])
+                out = f.filter_tables(tabs[0], tabs[1], kw['l_key_attr'], kw['r_key_attr'], kw['l_attr'], kw['r_attr'],
+                                      louts, routs, a['lp'], a['rp'], a['n_jobs'], False)
+                t = a['t']
+                positional = self.kind == 'position-filter'
+
+                def keep(lv, rv):      # C14: a common token (and, for the position filter, the size window); C09
+                    x, y = set(T(lv)), set(T(rv))
+                    if not x and not y:
+                        return a['allow_empty']
+                    if not (x & y):
+                        return False
+                    return (lb_(len(y), M, t) <= len(x) <= ub_(len(y), M, t)) if positional else True
+                q_ = qualifies(M, t)
+
+                def must(lv, rv):      # C04 / C09
+                    if not T(lv) and not T(rv):
+                        return a['allow_empty']
+                    return q_(lv, rv)
+                score = None
             else:
                 from py_stringsimjoin.filter.size_filter import SizeFilter
                 M = measure_of(case)
@@ -252,18 +277,26 @@ class _Tables(object):
                 return float('nan')
             return score(lv(i), rv(j))
         dl = None if louts is None else ['lx', 'v']
-        return check_rows(out.values.tolist(), list(out.columns), lrows, rrows, lcols, rcols, 'id', 'rid', dl, routs,
+        dr = None if routs is None else ['ry', 'id']
+        return check_rows(out.values.tolist(), list(out.columns), lrows, rrows, lcols, rcols, 'id', 'rid', dl, dr,
                           a['lp'], a['rp'], score_, must_, may, with_score, with_id=True)
 
 
 oracle(OVF + 'OverlapFilter.filter_tables')(type('OverlapTables', (_Tables,), {'kind': 'overlap-filter'}))
 oracle(SZF + 'SizeFilter.filter_tables')(type('SizeTables', (_Tables,), {'kind': 'size-filter'}))
 oracle('py_stringsimjoin.join.overlap_join_py.overlap_join_py')(type('OverlapJoin', (_Tables,), {'kind': 'overlap-join'}))
+PXF_ = 'py_stringsimjoin.filter.prefix_filter.'
+PSF_ = 'py_stringsimjoin.filter.position_filter.'
+oracle(PXF_ + 'PrefixFilter.filter_tables')(type('PrefixTables', (_Tables,), {'kind': 'prefix-filter'}))
+oracle(PSF_ + 'PositionFilter.filter_tables')(type('PositionTables', (_Tables,), {'kind': 'position-filter'}))
+alias(PXF_ + '_filter_tables_split', PXF_ + 'PrefixFilter.filter_tables')
+alias(PSF_ + '_filter_tables_split', PSF_ + 'PositionFilter.filter_tables')
 # internal functions without an oracle of their own are searched through the entry point that runs them
 for _q in ('_filter_tables_split', 'OverlapFilter.find_candidates', 'OverlapFilter.__init__'):
     alias(OVF + _q, OVF + 'OverlapFilter.filter_tables')
 for _q in ('InvertedIndex.build', 'InvertedIndex.__init__'):
     alias('py_stringsimjoin.index.inverted_index.' + _q, OVF + 'OverlapFilter.filter_tables')
+    alias('py_stringsimjoin.index.inverted_index.' + _q, 'py_stringsimjoin.join.overlap_coefficient_join_py.overlap_coefficient_join_py')
 alias('py_stringsimjoin.utils.simfunctions.overlap', OVF + 'OverlapFilter.filter_pair')
 for _q in ('_filter_tables_split', 'SizeFilter.find_candidates', 'SizeFilter.__init__'):
     alias(SZF + _q, SZF + 'SizeFilter.filter_tables')
@@ -365,7 +398,7 @@ class ApplyMatcher(object):
             def simf(x, y):
                 calls.append((x, y))
                 return float(abs(len(x) - len(y))) / 4
-        louts, routs = ((['lx', 'id', 'v', 'lx'], ['ry']) if a['outs'] else (None, None))
+        louts, routs = ((['lx', 'id', 'v', 'lx'], ['ry', 'rid', 'id', 'ry']) if a['outs'] else (None, None))
         out = apply_matcher(cs, 'l_id', 'r_rid', lt, rt, 'id', 'rid', 'v', 'w', tok, simf, a['t'], op, a['allow_missing'],
                             louts, routs, 'l_', 'r_', a['score'], a['n_jobs'], False)
         if not lt.equals(lt0) or not rt.equals(rt0) or not cs.equals(cs0):
@@ -388,11 +421,11 @@ class ApplyMatcher(object):
             if louts:
                 row += [lrows[i][0], lrows[i][2]]        # lx, v
             if routs:
-                row += [rrows[j][2]]
+                row += [rrows[j][2], rrows[j][3]]
             if a['score']:
                 row.append(sc)
             want_rows.append(row)
-        header = ['_id', 'l_id', 'r_rid'] + (['l_lx', 'l_v'] if louts else []) + (['r_ry'] if routs else []) + \
+        header = ['_id', 'l_id', 'r_rid'] + (['l_lx', 'l_v'] if louts else []) + (['r_ry', 'r_id'] if routs else []) + \
                  (['_sim_score'] if a['score'] else [])
         if list(out.columns) != header:
             return 'header %r, expected %r' % (list(out.columns), header)
@@ -555,3 +588,9 @@ for _q in ('py_stringsimjoin.index.prefix_index.PrefixIndex.build', 'py_stringsi
            'py_stringsimjoin.filter.prefix_filter.PrefixFilter.find_candidates',
            'py_stringsimjoin.filter.prefix_filter.PrefixFilter.__init__'):
     alias(_q, EDJ + 'edit_distance_join_py')
+    alias(_q, PXF_ + 'PrefixFilter.filter_tables')
+for _q in ('PositionIndex.build', 'PositionIndex.__init__'):
+    alias('py_stringsimjoin.index.position_index.' + _q, PSF_ + 'PositionFilter.filter_tables')
+    alias('py_stringsimjoin.index.position_index.' + _q, 'py_stringsimjoin.join.jaccard_join_py.jaccard_join_py')
+alias(PSF_ + 'PositionFilter.find_candidates', PSF_ + 'PositionFilter.filter_tables')
+alias('py_stringsimjoin.join.set_sim_join.set_sim_join', 'py_stringsimjoin.join.jaccard_join_py.jaccard_join_py')
